@@ -13,7 +13,9 @@ EXPLANATION = (
     ' Ok path; (R4) the repetition draw fires at a count of exactly 3; (R5) the occurrence table and the max-count stack are written '
     "only by count / uncount (imports the C05.R4 rows: no 'forget old positions' shortcut, no sharing between board copies). Counts "
     'along real games are NOT decided. R1 accepts the update as entry().and_modify().or_insert(), get_mut, or match on '
-    'Entry::{Occupied, Vacant} with get_mut / into_mut. (R6) = C16.R6: the game reports the verdict computed now.'
+    'Entry::{Occupied, Vacant} with get_mut / into_mut. (R6) = C16.R6: the game reports the verdict computed now. R1 also knows un-'
+    'counting written as match get_mut(key) { Some(c) if *c > 0 => { *c -= 1; pop } _ => nothing }: the zero / absent arms leave table '
+    'and stack alone.'
 )
 ASSUMPTIONS = [
     "HashMap::entry/and_modify/or_insert/get and Vec::push/pop have their documented meaning",
@@ -75,7 +77,11 @@ def map_updates(facts, o):
                 v = x[2]
                 if v[0] == 'bin' and v[1] in ('Add', 'Sub') and v[3] == C(1) and _deref(v[2]) == ('fld', me, 'Some.0'):
                     delta = 1 if v[1] == 'Add' else -1
-            if hit == 1 or wr:
+            # `Some(c) if *c > 0 => ..`: the arm that finds a count of zero leaves the entry alone, like the arm that finds none
+            zero = any(a[0] == 'bin' and a[1] == 'Gt' and a[3] == C(0) and _deref(a[2]) == ('fld', me, 'Some.0') and is_false(v) for a, v in o.conds)
+            if hit == 1 and not wr and zero:
+                ups.append({'map': _deref(e[2][0]), 'key': _deref(e[2][1]), 'present': 'not-taken', 'absent': None, 'closure': None})
+            elif hit == 1 or wr:
                 ups.append({'map': _deref(e[2][0]), 'key': _deref(e[2][1]), 'present': delta, 'absent': None, 'closure': None})
             else:
                 ups.append({'map': _deref(e[2][0]), 'key': _deref(e[2][1]), 'present': 'not-taken', 'absent': None, 'closure': None})
@@ -157,7 +163,8 @@ def r1_inverse(ctx):
     ctx.ob(rule, PI + '::count_current_position', 'entry(key).and_modify(+1).or_insert(1); push(count)', okc,
            found=summary(c), expected='on every path: key = current_position_hash, present: +1, absent: insert 1, one push')
     oku = bool(u) and all(len(p_['updates']) == 1 and p_['updates'][0]['key'] == hkey and p_['updates'][0]['present'] in (-1, 'not-taken') and p_['updates'][0]['absent'] is None
-                          and p_['pops'] == 1 and p_['pushes'] == 0 for p_ in u) and any(p_['updates'] and p_['updates'][0]['present'] == -1 for p_ in u)
+                          and (p_['pops'] == 1 or (p_['pops'] == 0 and p_['updates'][0]['present'] == 'not-taken')) and p_['pushes'] == 0 for p_ in u) and \
+        any(p_['updates'] and p_['updates'][0]['present'] == -1 and p_['pops'] == 1 for p_ in u)
     ctx.ob(rule, PI + '::uncount_current_position', 'entry(key).and_modify(-1); pop()', oku,
            found=summary(u), expected='on every path: key = current_position_hash, present: -1, nothing inserted, one pop')
     maps = {show(x['map']) for p_ in c + u for x in p_['updates']}
